@@ -223,12 +223,30 @@ def rule_table(chk):
 def rule_placeholders(chk, tab, placeholders):
     eq = M.py(EQ)
     sk = M.find_method(eq, 'CythonGroup', '_set_kernel')
+    # what _set_kernel does to each placeholder: the method is interpreted (E8) on one-word inputs - every placeholder the table uses, the documented ones, and every
+    # upper-case word among the method's own string constants - and on all of them in one string (a replacement must not depend on the others)
     repl = {}
-    consts = dict((U(a.targets[0]), M.const_str(a.value)) for a in ast.walk(sk) if isinstance(a, ast.Assign) and M.const_str(a.value))
-    for c in M.calls(sk):
-        if isinstance(c.func, ast.Attribute) and c.func.attr == 'replace' and len(c.args) == 2 and M.const_str(c.args[0]):
-            v = c.args[1]
-            repl[M.const_str(c.args[0])] = consts.get(U(v), M.const_str(v))
+    import re as _re
+    cands = set(placeholders) | set(['KERNEL', 'GRADIENT', 'GRADH', 'DWDQ', 'DELTAP']) | set(w for c_ in M.str_consts(sk) for w in _re.findall(r'\b[A-Z][A-Z_0-9]+\b', c_))
+    try:
+        it_ = EM.interpreter()
+        grp_ = EM.instance(it_, EQ, 'CythonGroup')
+        for w in sorted(cands):
+            out_ = EM.call(it_, grp_, '_set_kernel', '<%s>' % w, EM.mock(name='kernel'))
+            if not isinstance(out_, str):
+                raise A.Unsupported("result %r" % (out_,))
+            if out_ != '<%s>' % w:
+                repl[w] = out_[1:-1] if out_.startswith('<') and out_.endswith('>') else out_
+        allw = sorted(repl)
+        joined = EM.call(it_, grp_, '_set_kernel', ' '.join('<%s>' % w for w in allw), EM.mock(name='kernel'))
+        if joined != ' '.join('<%s>' % repl[w] for w in allw):
+            repl = dict((w, None) for w in allw)          # order-dependent substitution: no target can be trusted
+        none_ = EM.call(it_, grp_, '_set_kernel', '<KERNEL>', None)
+        chk.decide(none_ == '<KERNEL>', 'placeholder-substitution', 'untouched-without-kernel', node=sk, file=EQ, func='CythonGroup._set_kernel',
+                   detail_bad='with kernel=None the code comes back as %r' % (none_,), detail_ok='returned as is')
+    except (A.Unsupported, A.Raised) as e_:
+        chk.undecided('placeholder-substitution', 'same-set', node=sk, file=EQ, func='CythonGroup._set_kernel', detail='_set_kernel not interpretable: %s' % e_)
+        return
     chk.decide(set(repl) == placeholders, 'placeholder-substitution', 'same-set', node=sk, file=EQ, func='CythonGroup._set_kernel',
                detail_bad='placeholders used by the table %s vs substituted %s' % (sorted(placeholders), sorted(repl)), detail_ok=str(sorted(repl)))
     names = set(tab) | set(x.id for code, _, _ in tab.values() for x in ast.walk(ast.parse(textwrap.dedent(code).strip())) if isinstance(x, ast.Name))
@@ -350,6 +368,7 @@ def rule_wiring(chk):
     # the loops around the hooks and the order in which the equations of a destination are called are part of what the compiled code computes (rules shared with C03)
     c03.rule_do_group(chk, tpl)
     c03.rule_regroup(chk)
+    c03.rule_dispatch(chk)
     # the wrapper that `src.X` / `dst.X` resolve through must (re)bind every property AND every constant whenever an array is set
     def pick(test):
         return U(test) == 'len(group.data) > 0'
